@@ -584,3 +584,150 @@ Section LRaise.
       eapply nostamp_trans; [exact H0|]. eapply nostamp_trans; eauto.
   Qed.
 End LRaise.
+
+(* ======================= (D) the only statuses a linker ever writes: '.' and 'F' ======================= *)
+(* l' is l with some entries overwritten by x *)
+Definition stamped {A} (x : A) (l l' : list A) : Prop :=
+  length l' = length l /\ forall q, nth_error l' q = nth_error l q \/ nth_error l' q = Some x.
+
+Lemma stamped_refl {A} (x : A) l : stamped x l l.
+Proof. split; [reflexivity|intros q; left; reflexivity]. Qed.
+Lemma stamped_trans {A} (x : A) a b c : stamped x a b -> stamped x b c -> stamped x a c.
+Proof.
+  intros [L1 H1] [L2 H2]. split; [congruence|]. intros q. destruct (H2 q) as [E|E]; [|right; exact E].
+  rewrite E. apply H1.
+Qed.
+Lemma stamped_py_set {A} (x : A) l t l' : py_set l t x = Some l' -> stamped x l l'.
+Proof.
+  unfold py_set. destruct (py_pos (length l) t) as [p|] eqn:E; [|discriminate]. intros H; inversion H; subst.
+  split; [apply upd_length|]. intros q. destruct (Nat.eq_dec p q) as [->|Hne].
+  - right. apply nth_error_upd_eq. eapply py_pos_lt; eauto.
+  - left. apply nth_error_upd_neq. exact Hne.
+Qed.
+
+Section LStatus.
+  Variable num : Type.
+  Variables (sub : num -> num -> num) (absf : num -> num) (ltb : num -> num -> bool) (zero : num).
+  Variable sev : sid -> hook num.
+  Variables (pre ebefore eafter post : lhook num).
+
+  Notation comp := (comp num).
+  Notation lstate := (lstate num).
+  Notation find_sub := (find_sub num).
+  Notation put_sub := (put_sub num).
+  Notation set_status := (set_status num).
+  Notation set_iter := (set_iter num).
+  Notation stamp_subs := (stamp_subs num).
+  Notation lloop := (lloop num sub absf ltb zero sev ebefore eafter post).
+  Notation lfinish := (lfinish num).
+  Notation solve_t := (linker_solve_t_M num sub absf ltb zero sev pre ebefore eafter post).
+  Notation nostamp := (nostamp num).
+
+  Definition sst (x : st) (c c' : comp) : Prop := stamped x (status (c_st c)) (status (c_st c')).
+  Definition only_stamped (x : st) (s s' : lstate) : Prop :=
+    sst x (l_core s) (l_core s') /\ Forall2 (fun a b => fst a = fst b /\ sst x (snd a) (snd b)) (l_subs s) (l_subs s').
+
+  Lemma T2_refl x l : Forall2 (fun a b : sid * comp => fst a = fst b /\ sst x (snd a) (snd b)) l l.
+  Proof. induction l; constructor; auto. split; [reflexivity|apply stamped_refl]. Qed.
+  Lemma T2_trans x a : forall b c,
+    Forall2 (fun a b : sid * comp => fst a = fst b /\ sst x (snd a) (snd b)) a b ->
+    Forall2 (fun a b : sid * comp => fst a = fst b /\ sst x (snd a) (snd b)) b c ->
+    Forall2 (fun a b : sid * comp => fst a = fst b /\ sst x (snd a) (snd b)) a c.
+  Proof.
+    induction a as [|y a IH]; intros b c H1 H2; inversion H1; subst; inversion H2; subst; constructor.
+    - destruct H3 as [E1 R1]. destruct H4 as [E2 R2]. split; [congruence|eapply stamped_trans; eauto].
+    - eapply IH; eauto.
+  Qed.
+  Lemma T2_put_sub x id c c' l : find_sub id l = Some c -> sst x c c' ->
+    Forall2 (fun a b : sid * comp => fst a = fst b /\ sst x (snd a) (snd b)) l (put_sub id c' l).
+  Proof.
+    intros Hf Hr. induction l as [|[i y] r IH]; cbn [Linker.find_sub Linker.put_sub] in *; [constructor|].
+    destruct (Nat.eqb id i).
+    - inversion Hf; subst. constructor; [split; [reflexivity|exact Hr]|apply T2_refl].
+    - constructor; [split; [reflexivity|apply stamped_refl]|apply IH; exact Hf].
+  Qed.
+
+  Lemma only_stamped_of_nostamp x s s' : nostamp s s' -> only_stamped x s s'.
+  Proof.
+    intros (A1 & _ & A3). split; [unfold sst; rewrite A1; apply stamped_refl|].
+    induction A3 as [|a b l l' [E R] _ IH]; constructor; [|exact IH].
+    split; [exact E|]. unfold sst. unfold cst in R. rewrite R. apply stamped_refl.
+  Qed.
+  Lemma only_stamped_trans x a b c : only_stamped x a b -> only_stamped x b c -> only_stamped x a c.
+  Proof. intros [A1 A2] [B1 B2]. split; [eapply stamped_trans; eauto|eapply T2_trans; eauto]. Qed.
+
+  Lemma sst_set_status x c t c' : set_status c t x = Some c' -> sst x c c'.
+  Proof.
+    unfold Linker.set_status. destruct (py_set (status (c_st c)) t x) as [l|] eqn:E; [|discriminate].
+    intros H; inversion H; subst. unfold sst. cbn [c_st status]. eapply stamped_py_set; eauto.
+  Qed.
+  Lemma sst_set_iter x c t v c' : set_iter c t v = Some c' -> sst x c c'.
+  Proof.
+    unfold Linker.set_iter. destruct (py_set (iters (c_st c)) t v) as [l|]; [|discriminate].
+    intros H; inversion H; subst. apply stamped_refl.
+  Qed.
+
+  Lemma stamp_subs_T2 t x : forall ids subs,
+    Forall2 (fun a b : sid * comp => fst a = fst b /\ sst x (snd a) (snd b)) subs (fst (stamp_subs ids t x subs)).
+  Proof.
+    induction ids as [|id r IH]; intros subs; cbn [Linker.stamp_subs fst]; [apply T2_refl|].
+    destruct (find_sub id subs) as [c|] eqn:Ef; [|apply T2_refl].
+    destruct (set_status c t x) as [c'|] eqn:Es; [|apply T2_refl].
+    eapply T2_trans; [|apply IH]. eapply T2_put_sub; eauto. eapply sst_set_status; eauto.
+  Qed.
+
+  (* the loop hands over only '.' (converged) or 'F' (ran out of iterations) *)
+  Lemma lloop_done_status ids o t : forall n k s cur s' x j,
+    lloop ids o t n k s cur = LLDone s' x j -> x = Solved \/ x = Failed.
+  Proof.
+    induction n as [|n IH]; intros k s cur s' x j; cbn [Linker.lloop].
+    - intros H; inversion H; subst. right. reflexivity.
+    - destruct (iter_step num sev ebefore eafter ids o t k s) as [s1 [e|]]; [discriminate|].
+      destruct (Linker.get_check_values num zero ids t s1) as [cur'|e]; [|discriminate].
+      destruct (Z.of_nat k <? min_iter o); [apply IH|].
+      destruct (conv_all num sub absf ltb (tol o) cur' cur); [|apply IH].
+      destruct (run_hook num post ids o t k (LPost t k) s1) as [s2 [e|]]; [discriminate|].
+      intros H; inversion H; subst. left. reflexivity.
+  Qed.
+
+  Lemma lfinish_only_stamped o ids t s x k : only_stamped x s (fst (lfinish o ids t (LLDone s x k))).
+  Proof.
+    cbn [Linker.lfinish].
+    destruct (set_status (l_core s) t x) as [c1|] eqn:E1; [|split; [apply stamped_refl|apply T2_refl]].
+    destruct (set_iter c1 t (Z.of_nat k)) as [c2|] eqn:E2.
+    - pose proof (stamp_subs_T2 t x ids (l_subs s)) as HF.
+      assert (Hc : sst x (l_core s) c2).
+      { eapply stamped_trans; [eapply sst_set_status; eauto|eapply sst_set_iter; eauto]. }
+      destruct (stamp_subs ids t x (l_subs s)) as [subs' [e|]]; cbn [fst] in *.
+      + split; [exact Hc|exact HF].
+      + destruct (st_eqb x Failed && fail_raise o); cbn [fst]; (split; [exact Hc|exact HF]).
+    - cbn [fst]. split; [eapply sst_set_status; eauto|apply T2_refl].
+  Qed.
+
+  (* On EVERY path, every status entry of the linker and of every submodel after solve_t is either what it was or one
+     single value x, and x is '.' or 'F': the linker never writes 'E' or 'S' (it has no error policy of its own — errors=
+     and catch_first_error are only handed down to the hooks and to each submodel's _evaluate, see Linker.eval_subs /
+     run_hook), and it never writes two different statuses in one call. *)
+  Theorem solve_t_stamps_only_solved_or_failed sel o t s :
+    exists x, (x = Solved \/ x = Failed) /\ only_stamped x s (fst (solve_t sel o t s)).
+  Proof.
+    unfold Linker.linker_solve_t_M. set (ids := sel_ids num sel s).
+    assert (Triv : forall s', nostamp s s' -> exists x, (x = Solved \/ x = Failed) /\ only_stamped x s s').
+    { intros s' H. exists Failed. split; [right; reflexivity|apply only_stamped_of_nostamp; exact H]. }
+    destruct (Linker.get_check_values num zero ids t s) as [cur|e]; [|apply Triv; apply nostamp_refl].
+    pose proof (zero_iters_S2 num t ids (l_subs s)) as HZ.
+    destruct (zero_iters num ids t (l_subs s)) as [subs1 [e|]]; cbn [fst] in *.
+    - apply Triv. split; [reflexivity|split; [reflexivity|exact HZ]].
+    - assert (H0 : nostamp s (mkL (l_core s) subs1 (l_log s))) by (split; [reflexivity|split; [reflexivity|exact HZ]]).
+      pose proof (run_hook_nostamp num pre ids o t 0%nat (LPre t) (mkL (l_core s) subs1 (l_log s))) as H1.
+      destruct (run_hook num pre ids o t 0%nat (LPre t) (mkL (l_core s) subs1 (l_log s))) as [s1 [e|]]; cbn [fst] in *.
+      + apply Triv. eapply nostamp_trans; eauto.
+      + pose proof (lloop_nostamp num sub absf ltb zero sev ebefore eafter post ids o t (Z.to_nat (max_iter o)) 1%nat s1 cur) as H2.
+        destruct (lloop ids o t (Z.to_nat (max_iter o)) 1%nat s1 cur) as [s2 x k|s2 e] eqn:EL.
+        * cbn [LinkerFacts.llres_state] in H2. exists x. split; [eapply lloop_done_status; eauto|].
+          eapply only_stamped_trans; [|apply lfinish_only_stamped].
+          apply only_stamped_of_nostamp. eapply nostamp_trans; [exact H0|]. eapply nostamp_trans; eauto.
+        * cbn [LinkerFacts.llres_state Linker.lfinish fst] in *. apply Triv.
+          eapply nostamp_trans; [exact H0|]. eapply nostamp_trans; eauto.
+  Qed.
+End LStatus.
